@@ -1,1 +1,365 @@
-From Coq Require Import ZArith List.
+(* Array<T>: the growth rule of reserve (`| 0x03` rounding, the `!_begin.item` clause), the
+   shifting removal, and for whole histories over several variables: every step of the model
+   keeps size <= capacity and refines the step of the reference sequences. *)
+From Coq Require Import ZArith List Bool Lia.
+From Coq Require Import ZifyBool ZifyNat.
+From Common Require Import ListAux.
+From Seq Require Import SeqSpec SeqModel SeqPoolProofs SeqListProofs.
+Import ListNotations.
+Local Open Scope Z_scope.
+
+(* ---- c | 3 ------------------------------------------------------------------------------ *)
+Lemma lor_ldiff_same a b : Z.lor (Z.ldiff a b) b = Z.lor a b.
+Proof.
+  apply Z.bits_inj'. intros n Hn. rewrite !Z.lor_spec, Z.ldiff_spec.
+  destruct (Z.testbit a n), (Z.testbit b n); reflexivity.
+Qed.
+
+Lemma land_3_mod c : Z.land c 3 = c mod 4.
+Proof. change 3 with (Z.ones 2). rewrite Z.land_ones by lia. reflexivity. Qed.
+
+Lemma ldiff_3 c : Z.ldiff c 3 = c - c mod 4.
+Proof.
+  assert (E : Z.ldiff c 3 + Z.land c 3 = c).
+  { rewrite Z.add_nocarry_lxor, Z.lxor_lor.
+    - apply Z.lor_ldiff_and.
+    - rewrite (Z.land_comm c 3), Z.land_assoc, Z.land_ldiff. reflexivity.
+    - rewrite (Z.land_comm c 3), Z.land_assoc, Z.land_ldiff. reflexivity. }
+  rewrite land_3_mod in E. lia.
+Qed.
+
+(* the rounding of reserve: the next number that is 3 modulo 4 *)
+Lemma lor3_spec c : Z.lor c 3 = c - c mod 4 + 3.
+Proof.
+  rewrite <- lor_ldiff_same. rewrite <- Z.lxor_lor, <- Z.add_nocarry_lxor by apply Z.land_ldiff.
+  rewrite ldiff_3. reflexivity.
+Qed.
+
+Lemma lor3_bounds c : c <= Z.lor c 3 <= c + 3 /\ (Z.lor c 3) mod 4 = 3.
+Proof.
+  rewrite lor3_spec. pose proof (Z.mod_pos_bound c 4 ltac:(lia)) as B. split; [lia|].
+  rewrite (Z.div_mod c 4) at 1 by lia.
+  replace (4 * (c / 4) + c mod 4 - c mod 4 + 3) with (3 + (c / 4) * 4) by lia.
+  rewrite Z.mod_add by lia. reflexivity.
+Qed.
+
+(* ---- one array -------------------------------------------------------------------------- *)
+Definition a_inv (a : marr) : Prop :=
+  asize a <= cap a
+  /\ (allocated a = false -> items a = [])
+  /\ (allocated a = true -> (cap a) mod 4 = 3).
+
+Lemma a_inv_empty : a_inv a_empty.
+Proof. unfold a_inv, a_empty, asize; cbn. repeat split; try lia; intros; try reflexivity; discriminate. Qed.
+
+Lemma asize_nonneg a : 0 <= asize a.
+Proof. unfold asize. lia. Qed.
+
+(* void reserve(usize size): what it does to the three fields *)
+Lemma a_reserve_rule n a :
+    items (a_reserve n a) = items a
+    /\ (if (n >? cap a) || (negb (allocated a) && (n >? 0))
+        then cap (a_reserve n a) = Z.lor (Z.max n (cap a)) 3 /\ allocated (a_reserve n a) = true
+        else a_reserve n a = a).
+Proof.
+  unfold a_reserve. destruct ((n >? cap a) || (negb (allocated a) && (n >? 0))) eqn:E; cbn [items cap allocated].
+  - split; [reflexivity|]. split; [|reflexivity]. f_equal. destruct (n >? cap a) eqn:G; lia.
+  - split; reflexivity.
+Qed.
+
+(* capacity boundaries: no reallocation while the request fits an allocated buffer; otherwise
+   the capacity becomes max(request, old) rounded up to 3 mod 4 *)
+Lemma a_reserve_fits n a : allocated a = true -> n <= cap a -> a_reserve n a = a.
+Proof.
+  intros Ha Hn. unfold a_reserve. rewrite Ha. cbn [negb andb]. rewrite orb_false_r.
+  destruct (n >? cap a) eqn:G; [lia|reflexivity].
+Qed.
+
+Lemma a_reserve_grows n a : cap a < n ->
+    cap (a_reserve n a) = n - n mod 4 + 3 /\ allocated (a_reserve n a) = true /\ items (a_reserve n a) = items a.
+Proof.
+  intros Hn. unfold a_reserve. destruct (n >? cap a) eqn:G; [|lia]. cbn [orb items cap allocated].
+  split; [apply lor3_spec|split; reflexivity].
+Qed.
+
+Lemma a_reserve_inv n a : a_inv a -> a_inv (a_reserve n a) /\ n <= cap (a_reserve n a) /\ cap a <= cap (a_reserve n a).
+Proof.
+  intros (Hs & Hu & Hc). pose proof (asize_nonneg a) as Hz.
+  destruct (a_reserve_rule n a) as (Hi & Hr).
+  destruct ((n >? cap a) || (negb (allocated a) && (n >? 0))) eqn:E.
+  - destruct Hr as (Hcap & Hal).
+    pose proof (lor3_bounds (Z.max n (cap a))) as (B & M).
+    unfold a_inv, asize. rewrite Hi, Hcap, Hal. fold (asize a).
+    repeat split; intros; try discriminate; try lia; try exact M.
+  - rewrite Hr. split; [repeat split; assumption|]. split; [|lia].
+    destruct (allocated a) eqn:Ea; cbn [negb andb] in E.
+    + lia.
+    + unfold asize in *. rewrite (Hu eq_refl) in *. cbn [length] in *. lia.
+Qed.
+
+Lemma a_reserve_items n a : items (a_reserve n a) = items a.
+Proof. apply a_reserve_rule. Qed.
+
+(* an unallocated array that was asked for n > 0 elements is allocated afterwards *)
+Lemma a_reserve_alloc n a : a_inv a -> 0 < n -> allocated (a_reserve n a) = true.
+Proof.
+  intros I Hn. destruct (a_reserve_rule n a) as (_ & Hr).
+  destruct ((n >? cap a) || (negb (allocated a) && (n >? 0))) eqn:E; [apply Hr|].
+  rewrite Hr. destruct (allocated a) eqn:Ea; [reflexivity|]. cbn [negb andb] in E. lia.
+Qed.
+
+Lemma a_resize_refines n v a : a_inv a -> 0 <= n ->
+    a_inv (a_resize n v a) /\ items (a_resize n v a) = resized (Z.to_nat n) v (items a).
+Proof.
+  intros I Hn. pose proof I as (Hs & Hu & Hc). unfold a_resize, resized.
+  destruct (n <? asize a) eqn:E.
+  - assert (Nat.ltb (Z.to_nat n) (length (items a)) = true) as -> by (unfold asize in E; lia).
+    cbn [items]. split; [|reflexivity].
+    unfold a_inv, asize in *. cbn [items cap allocated].
+    repeat split.
+    + rewrite firstn_length. lia.
+    + intros Ha. rewrite (Hu Ha). destruct (Z.to_nat n); reflexivity.
+    + exact Hc.
+  - assert (Nat.ltb (Z.to_nat n) (length (items a)) = false) as -> by (unfold asize in E; lia).
+    destruct (a_reserve_inv n a I) as ((Hs1 & Hu1 & Hc1) & Hge & _).
+    cbn [items]. rewrite a_reserve_items. split; [|reflexivity].
+    unfold a_inv, asize in *. cbn [items cap allocated]. rewrite a_reserve_items in *.
+    repeat split.
+    + rewrite app_length, repeat_length. lia.
+    + intros Ha. destruct (Z.eq_dec n 0) as [->|Hn0].
+      * rewrite (Hu1 Ha). reflexivity.
+      * rewrite a_reserve_alloc in Ha by (try exact I; lia). discriminate.
+    + exact Hc1.
+Qed.
+
+Lemma a_append_all_refines vs a : a_inv a ->
+    a_inv (a_append_all vs a) /\ items (a_append_all vs a) = items a ++ vs.
+Proof.
+  intros I. unfold a_append_all.
+  destruct (a_reserve_inv (asize a + Z.of_nat (length vs)) a I) as ((Hs1 & Hu1 & Hc1) & Hge & _).
+  cbn [items]. rewrite a_reserve_items. split; [|reflexivity].
+  unfold a_inv, asize in *. cbn [items cap allocated]. rewrite a_reserve_items in *.
+  repeat split.
+  - rewrite app_length. lia.
+  - intros Ha. destruct vs as [|x t].
+    + rewrite (Hu1 Ha). reflexivity.
+    + rewrite a_reserve_alloc in Ha by (try exact I; cbn [length]; lia). discriminate.
+  - exact Hc1.
+Qed.
+
+Lemma a_append_refines v a a' k : a_inv a -> a_append v a = (a', k) ->
+    a_inv a' /\ items a' = items a ++ [v] /\ k = length (items a).
+Proof.
+  intros I H. unfold a_append in H. inversion H; subst a' k. clear H.
+  destruct (a_append_all_refines [v] a I) as (I1 & Hi). unfold a_append_all in *. cbn [length] in *.
+  change (Z.of_nat 1) with 1 in *. rewrite a_reserve_items in *. cbn [items] in *.
+  split; [exact I1|]. split; reflexivity.
+Qed.
+
+Lemma shift_out_del_at k : forall l, shift_out k l = del_at k l.
+Proof.
+  induction k as [|k IH]; intros [|x t]; cbn [shift_out]; try reflexivity.
+  unfold del_at in *. cbn [firstn skipn app]. f_equal. apply IH.
+Qed.
+
+Lemma del_at_length k (l : sseq) : (length (del_at k l) <= length l)%nat.
+Proof. unfold del_at. rewrite app_length, firstn_length, skipn_length. lia. Qed.
+
+Lemma a_shift_inv k a : a_inv a -> a_inv (mk_marr (shift_out k (items a)) (cap a) (allocated a)).
+Proof.
+  intros (Hs & Hu & Hc). unfold a_inv, asize in *. cbn [items cap allocated].
+  rewrite shift_out_del_at. pose proof (del_at_length k (items a)). repeat split.
+  - lia.
+  - intros Ha. rewrite (Hu Ha). unfold del_at. destruct k; reflexivity.
+  - exact Hc.
+Qed.
+
+Lemma a_find_index v l : forall pos, a_find_from v l pos = (pos + index_of v l)%nat.
+Proof.
+  induction l as [|x t IH]; intros pos; cbn [a_find_from index_of]; [lia|].
+  destruct (x =? v); [lia|]. rewrite IH. lia.
+Qed.
+
+Lemma a_clear_refines a : a_inv a -> a_inv (a_clear a) /\ items (a_clear a) = [].
+Proof.
+  intros (Hs & Hu & Hc). unfold a_clear. destruct (allocated a) eqn:Ea.
+  - split; [|reflexivity]. unfold a_inv, asize in *. cbn [items cap allocated length].
+    repeat split; intros; try discriminate; try lia; try (apply Hc; reflexivity).
+  - split; [|apply Hu; reflexivity]. unfold a_inv. rewrite Ea. repeat split; assumption.
+Qed.
+
+Lemma a_copy_refines src a : a_inv src -> a_inv a ->
+    a_inv (a_copy_from src a) /\ items (a_copy_from src a) = items src.
+Proof.
+  intros (Hs & Hu & Hc) I. unfold a_copy_from. cbn [items]. split; [|reflexivity].
+  destruct (a_reserve_inv (cap src) a I) as ((Hs1 & Hu1 & Hc1) & Hge & _).
+  unfold a_inv, asize in *. cbn [items cap allocated]. repeat split.
+  - lia.
+  - intros Ha. destruct (Z_lt_le_dec 0 (cap src)) as [Hp|Hp].
+    + rewrite a_reserve_alloc in Ha by (try exact I; lia). discriminate.
+    + destruct (items src); [reflexivity|]. cbn [length] in Hs. lia.
+  - exact Hc1.
+Qed.
+
+(* ---- worlds ----------------------------------------------------------------------------- *)
+Definition ainv (w : aworld) : Prop := Forall a_inv w.
+
+Lemma aabs_upd i a w : aabs (upd i a w) = upd i (items a) (aabs w).
+Proof. unfold aabs. apply map_upd. Qed.
+Lemma aabs_length w : length (aabs w) = length w.
+Proof. apply map_length. Qed.
+Lemma sget_aabs i w : sget i (aabs w) = items (aget i w).
+Proof. exact (map_nth items w a_empty i). Qed.
+
+Lemma ainv_init nv : ainv (ainit nv).
+Proof. unfold ainv, ainit. induction nv as [|n IH]; cbn; constructor; [apply a_inv_empty|exact IH]. Qed.
+Lemma aabs_init nv : aabs (ainit nv) = sinit nv.
+Proof. unfold aabs, ainit, sinit. induction nv as [|n IH]; cbn; [reflexivity|]. f_equal. exact IH. Qed.
+
+Lemma ainv_get i w : ainv w -> a_inv (aget i w).
+Proof.
+  intros H. unfold aget. destruct (Nat.lt_ge_cases i (length w)) as [L|L].
+  - eapply Forall_forall; [exact H|]. apply nth_In. exact L.
+  - rewrite nth_overflow by exact L. apply a_inv_empty.
+Qed.
+
+Lemma ainv_upd i a w : ainv w -> a_inv a -> ainv (upd i a w).
+Proof.
+  intros H Ha. revert i. induction H as [|x t Hx Ht IH]; intros [|i]; cbn; constructor; auto.
+  apply IH.
+Qed.
+
+Lemma upd_nth_same {A} i (d : A) l : upd i (nth i l d) l = l.
+Proof. revert i; induction l as [|h t IH]; intros [|i]; cbn; auto. f_equal. apply IH. Qed.
+
+Lemma apre_ext sz1 sz2 nv op : (forall i, sz1 i = sz2 i) -> apre sz1 nv op = apre sz2 nv op.
+Proof. intros E. destruct op; cbn [apre]; rewrite ?E; reflexivity. Qed.
+
+Lemma ssize_aabs w i : ssize (aabs w) i = awsize w i.
+Proof. unfold ssize, awsize. rewrite sget_aabs. reflexivity. Qed.
+
+Ltac abools :=
+  repeat match goal with
+  | H : _ && _ = true |- _ => apply andb_true_iff in H; destruct H
+  | H : negb _ = true |- _ => apply negb_true_iff in H
+  | H : Nat.ltb _ _ = true |- _ => apply Nat.ltb_lt in H
+  | H : Nat.leb _ _ = true |- _ => apply Nat.leb_le in H
+  | H : Nat.eqb _ _ = false |- _ => apply Nat.eqb_neq in H
+  | H : (_ <=? _) = true |- _ => apply Z.leb_le in H
+  end.
+
+Theorem astep_refines w op w' r : ainv w -> astep w op = (w', r) ->
+    ainv w' /\ aspec (aabs w) op = (aabs w', aobs_res r).
+Proof.
+  intros I H. unfold astep in H.
+  assert (Epre : apre (ssize (aabs w)) (length (aabs w)) op = apre (awsize w) (length w) op).
+  { rewrite aabs_length. apply apre_ext. apply ssize_aabs. }
+  unfold aspec. rewrite Epre.
+  destruct (apre (awsize w) (length w) op) eqn:Hpre; cbn [negb] in *.
+  2:{ inversion H; subst w' r. split; [exact I|reflexivity]. }
+  destruct op; cbn [apre] in Hpre; abools; unfold awsize in *.
+  - (* ANew *)
+    inversion H; subst w' r. split; [apply ainv_upd; [exact I|apply a_inv_empty]|].
+    rewrite aabs_upd. reflexivity.
+  - (* ANewCap *)
+    inversion H; subst w' r. split.
+    + apply ainv_upd; [exact I|]. unfold a_inv, asize; cbn [items cap allocated length].
+      repeat split; intros; try discriminate; try lia; try reflexivity.
+    + rewrite aabs_upd. reflexivity.
+  - (* ACopy *)
+    inversion H; subst w' r.
+    destruct (a_copy_refines (aget j w) a_empty (ainv_get j w I) a_inv_empty) as (I1 & Hi).
+    split; [apply ainv_upd; assumption|]. rewrite aabs_upd, sget_aabs, Hi. reflexivity.
+  - (* AAssign *)
+    inversion H; subst w' r.
+    destruct (a_clear_refines _ (ainv_get i w I)) as (I0 & _).
+    destruct (a_copy_refines (aget j w) _ (ainv_get j w I) I0) as (I1 & Hi).
+    split; [apply ainv_upd; assumption|]. rewrite aabs_upd, sget_aabs, Hi. reflexivity.
+  - (* AReserve *)
+    inversion H; subst w' r.
+    destruct (a_reserve_inv n _ (ainv_get i w I)) as (I1 & _).
+    split; [apply ainv_upd; assumption|].
+    rewrite aabs_upd, a_reserve_items. rewrite <- sget_aabs. unfold sget. rewrite upd_nth_same. reflexivity.
+  - (* AResizeD *)
+    inversion H; subst w' r.
+    destruct (a_resize_refines n 0 _ (ainv_get i w I) ltac:(assumption)) as (I1 & Hi).
+    split; [apply ainv_upd; assumption|]. rewrite aabs_upd, sget_aabs, Hi. reflexivity.
+  - (* AResize *)
+    inversion H; subst w' r.
+    destruct (a_resize_refines n v _ (ainv_get i w I) ltac:(assumption)) as (I1 & Hi).
+    split; [apply ainv_upd; assumption|]. rewrite aabs_upd, sget_aabs, Hi. reflexivity.
+  - (* AAppend *)
+    destruct (a_append v (aget i w)) as [a1 k] eqn:E. inversion H; subst w' r.
+    destruct (a_append_refines _ _ _ _ (ainv_get i w I) E) as (I1 & Hi & Hk).
+    split; [apply ainv_upd; assumption|]. rewrite aabs_upd, sget_aabs, Hi, Hk. reflexivity.
+  - (* AAppendArr *)
+    inversion H; subst w' r.
+    destruct (a_append_all_refines (items (aget j w)) _ (ainv_get i w I)) as (I1 & Hi).
+    split; [apply ainv_upd; assumption|]. rewrite aabs_upd, !sget_aabs, Hi. reflexivity.
+  - (* AAppendBuf *)
+    inversion H; subst w' r.
+    destruct (a_append_all_refines vs _ (ainv_get i w I)) as (I1 & Hi).
+    split; [apply ainv_upd; assumption|]. rewrite aabs_upd, sget_aabs, Hi. reflexivity.
+  - (* ARemoveIdx *)
+    inversion H; subst w' r. unfold a_remove_idx, asize. rewrite sget_aabs.
+    destruct (Nat.ltb k (length (items (aget i w)))) eqn:E.
+    + assert (Z.of_nat k <? Z.of_nat (length (items (aget i w))) = true) as -> by lia.
+      split; [apply ainv_upd; [exact I|apply a_shift_inv; apply ainv_get; exact I]|].
+      rewrite aabs_upd. cbn [items]. rewrite shift_out_del_at. reflexivity.
+    + assert (Z.of_nat k <? Z.of_nat (length (items (aget i w))) = false) as -> by lia.
+      split; [apply ainv_upd; [exact I|apply ainv_get; exact I]|].
+      rewrite aabs_upd. reflexivity.
+  - (* ARemoveIt *)
+    unfold a_remove_it in H. injection H as Hw Hr; subst w' r.
+    split; [apply ainv_upd; [exact I|apply a_shift_inv; apply ainv_get; exact I]|].
+    rewrite aabs_upd, sget_aabs. cbn [items aobs_res]. rewrite shift_out_del_at. reflexivity.
+  - (* ARemoveFront *)
+    unfold a_remove_it in H. injection H as Hw Hr; subst w' r.
+    split; [apply ainv_upd; [exact I|apply (a_shift_inv 0 (aget i w)); apply ainv_get; exact I]|].
+    rewrite aabs_upd, sget_aabs. cbn [items aobs_res]. rewrite <- del_at_0, <- shift_out_del_at. reflexivity.
+  - (* ARemoveBack *)
+    unfold a_remove_it in H. injection H as Hw Hr; subst w' r.
+    split; [apply ainv_upd; [exact I|apply a_shift_inv; apply ainv_get; exact I]|].
+    rewrite aabs_upd, sget_aabs. cbn [items aobs_res]. rewrite shift_out_del_at, del_at_last. reflexivity.
+  - (* AFind *)
+    inversion H; subst w' r. split; [exact I|]. rewrite sget_aabs, a_find_index. reflexivity.
+  - (* AClear *)
+    inversion H; subst w' r.
+    destruct (a_clear_refines _ (ainv_get i w I)) as (I1 & Hi).
+    split; [apply ainv_upd; assumption|]. rewrite aabs_upd, Hi. reflexivity.
+  - (* ASwap *)
+    inversion H; subst w' r.
+    split; [apply ainv_upd; [apply ainv_upd; [exact I|]|]; apply ainv_get; exact I|].
+    rewrite !aabs_upd, !sget_aabs. reflexivity.
+Qed.
+
+Definition aobs_trace (tr : list (aworld * mres)) : list (sstate * res) :=
+  map (fun wr => (aabs (fst wr), aobs_res (snd wr))) tr.
+
+Lemma arun_refines ops : forall w, ainv w ->
+    aspec_run (aabs w) ops = aobs_trace (arun w ops) /\ Forall (fun wr => ainv (fst wr)) (arun w ops).
+Proof.
+  induction ops as [|op t IH]; intros w I; cbn [arun aspec_run].
+  - split; [reflexivity|constructor].
+  - destruct (astep w op) as [w1 r] eqn:E.
+    destruct (astep_refines w op w1 r I E) as (I1 & S). rewrite S.
+    destruct (IH w1 I1) as (R & F). split.
+    + cbn [aobs_trace map fst snd]. f_equal. exact R.
+    + constructor; [exact I1|exact F].
+Qed.
+
+Theorem array_history_refines nv ops :
+    aspec_run (sinit nv) ops = aobs_trace (arun (ainit nv) ops).
+Proof. rewrite <- aabs_init. apply arun_refines. apply ainv_init. Qed.
+
+(* capacity() >= size() and the shape of the capacity, in every reachable state *)
+Theorem array_history_capacity nv ops :
+    Forall (fun wr => forall i, asize (aget i (fst wr)) <= cap (aget i (fst wr))
+                                /\ (allocated (aget i (fst wr)) = true -> cap (aget i (fst wr)) mod 4 = 3)
+                                /\ (allocated (aget i (fst wr)) = false -> items (aget i (fst wr)) = []))
+           (arun (ainit nv) ops).
+Proof.
+  destruct (arun_refines ops (ainit nv) (ainv_init nv)) as (_ & F).
+  eapply Forall_impl; [|exact F]. intros [w r] Hw i. cbn [fst] in *.
+  destruct (ainv_get i w Hw) as (A & B & C). repeat split; assumption.
+Qed.
